@@ -39,13 +39,17 @@ def _idx(name, lid):
     return ("T", (name,), (SZ,), (), SZ, ("c", (1, 0)))
 
 
-BINDERS = ("R", "Lam", "CatIn", "CatNew", "Svar", "Sidx", "Sexp")
-SLOTS = {"R": 1, "Lam": 1, "CatIn": 1, "CatNew": 2, "Svar": 2, "Sidx": 2, "Sexp": 2}
+BINDERS = ("R", "R2", "Lam", "CatIn", "CatNew", "Svar", "Sidx", "Sexp", "S2")
+SLOTS = {"R": 1, "R2": 2, "Lam": 1, "CatIn": 1, "CatNew": 2, "Svar": 2, "Sidx": 2, "Sexp": 2, "S2": 4}
 
 
 def apply_binder(kind, e, names):
     if kind == "R":
         return ("R", "add", e, ((names[0], SZ),))
+    if kind == "R2":  # one binder with two bound names
+        return ("R", "add", e, tuple((n, SZ) for n in names[:2]))
+    if kind == "S2":  # one substitution binding two keys; values mention names[2], names[3]
+        return ("S", e, ((names[0], ("V", names[2], SZ, ())), (names[1], _idx(names[3], 0))))
     if kind == "Lam":
         return ("Lam", names[0], SZ, e)
     if kind == "CatIn":  # part_name == name
